@@ -89,3 +89,12 @@ Theorem C10_refuted_blocking_local_upgrade : forall kdf policy_ok orc ac s oc re
   wedged kdf policy_ok orc ac s.
 Proof. exact blocking_local_upgrade_wedges. Qed.
 Print Assumptions C10_refuted_blocking_local_upgrade.
+
+(* ---- the model's state space is the code's declared state ----
+   (theories/StateInst.v: package-level variables and struct fields listed by tools/facts on every
+   run; the models keep no state between operations other than these components) *)
+From Whawty Require StateInst.
+Theorem C10_agent_state_inventory : StateInst.agent_state_inventory.
+Proof. exact StateInst.agent_state_inventory_holds. Qed.
+Theorem C10_hooks_state_inventory : StateInst.hooks_state_inventory.
+Proof. exact StateInst.hooks_state_inventory_holds. Qed.
